@@ -788,6 +788,29 @@ def install(reg):
         return VInt(t)
     SF["declared_len"] = s_declared_len
 
+    def s_path_is_str(p, paths, i):
+        h = p.deref(paths)
+        X = p.list_seq(h)
+        it = p.as_int(i)
+        return VBool(z3.Implies(z3.And(it >= 0, it < z3.Length(X)), PV.is_PStr(X[it])))
+    SF["path_is_str"] = s_path_is_str
+
+    def s_fileinfo_wellformed(p, fileinfo, i, layers, pl):
+        """fileinfo[i] (when present) is {'path', 'length': int >= 0, 'pieces root': bytes | None}; files larger than a piece have
+        their root as a key of the piece-layers dict"""
+        keys, has, mp = (PV.dkeys(p.dict_term(p.deref(fileinfo))), PV.dhas(p.dict_term(p.deref(fileinfo))), PV.dmap(p.dict_term(p.deref(fileinfo))))
+        it = p.as_int(i)
+        e = z3.Select(mp, KEY.KInt(it))
+        ln = z3.Select(PV.dmap(e), key_of_const("length"))
+        rt = z3.Select(PV.dmap(e), key_of_const("pieces root"))
+        lt = p.dict_term(p.deref(layers))
+        fact = z3.And(PV.is_PDict(e), z3.Select(PV.dhas(e), key_of_const("length")), z3.Select(PV.dhas(e), key_of_const("pieces root")),
+                      PV.is_PInt(ln), PV.ival(ln) >= 0, z3.Or(PV.is_PBytes(rt), PV.is_PNone(rt)),
+                      z3.Implies(PV.ival(ln) > p.as_int(pl), z3.And(PV.is_PBytes(rt), z3.Select(PV.dhas(lt), KEY.KBytes(PV.yval(rt))),
+                                                                   PV.is_PBytes(z3.Select(PV.dmap(lt), KEY.KBytes(PV.yval(rt)))))))
+        return VBool(z3.Implies(z3.Select(has, KEY.KInt(it)), fact))
+    SF["fileinfo_wellformed"] = s_fileinfo_wellformed
+
     def s_path_is_file(p, paths, i):
         fs = fs_of(p)
         h = p.deref(paths)
